@@ -454,6 +454,14 @@ impl<'a> Printer<'a> {
                 };
                 wrap(format!("h.{} {}", n, self.inline(a, ind, 2)), prec >= 2)
             }
+            Tm::HostFn(h) => format!(
+                "h.{}",
+                match h {
+                    Host::Log => "log",
+                    Host::Tick => "tick",
+                    Host::Fail => "fail",
+                }
+            ),
             // gluon has no expression-level annotation; annotations are only printed on bindings
             Tm::Ann(e, _) => return self.inline(e, ind, prec),
             Tm::Let(..) | Tm::LetRec(..) | Tm::LetPat(..) | Tm::Match(..) => unreachable!(),
